@@ -36,8 +36,26 @@ ReprOK(o, vals) ==
      ELSE vals[1][2] = 1 /\ vals[2] = <<9, Len(o.v)>>
 
 \* C19: pp prints, in order, exactly the digits of the data plus the reported trailing bits, never
-\* splits a group, keeps lines within width unless a line holds a single group, no escapes if no_color
-PPOK(o, vals, gbits, width, nocolor, twoFormats, hasLen) ==
+\* splits a group, keeps lines within width unless a line holds a single group, no escapes if no_color.
+\* Under lsb0 the groups are printed starting from the least significant end (each group still reads
+\* most significant digit first) and the trailing bits are the most significant ones.
+GroupsOf(d, sizes) ==
+  \* the digits of d (after its tag) cut into consecutive groups of the given sizes
+  [i \in 1..Len(sizes) |-> SubSeq(d, 2 + SumSeq(SubSeq(sizes, 1, i - 1)), 1 + SumSeq(SubSeq(sizes, 1, i)))]
+SizesFor(d, gbits) ==
+  \* group sizes (in digits) of a format whose groups were not reported: full groups, then the remainder
+  LET per == IF gbits > 0 THEN gbits \div DigitWidth(d[1]) ELSE Len(d) - 1
+      nd == Len(d) - 1
+      full == IF per > 0 THEN nd \div per ELSE 0
+      rest == IF per > 0 THEN nd % per ELSE 0 IN
+  [i \in 1..(full + (IF rest > 0 THEN 1 ELSE 0)) |-> IF i <= full THEN per ELSE rest]
+DataOf(d, sizes, lsb0) ==
+  LET gs == GroupsOf(d, sizes)
+      k == Len(gs)
+      w == DigitWidth(d[1]) IN
+  FoldLeft(LAMBDA acc, i : acc \o FromDigits(gs[IF lsb0 THEN k + 1 - i ELSE i], w), <<>>, [i \in 1..k |-> i])
+WithTrailing(data, trailing, lsb0) == IF lsb0 THEN trailing \o data ELSE data \o trailing
+PPOK(o, vals, gbits, width, nocolor, twoFormats, hasLen, lsb0) ==
   /\ Len(vals) = 7
   /\ LET esc == vals[1][2]
          d1 == vals[2]  d2 == vals[3]
@@ -45,8 +63,9 @@ PPOK(o, vals, gbits, width, nocolor, twoFormats, hasLen) ==
          linelens == SubSeq(vals[5], 2, Len(vals[5]))
          perline == SubSeq(vals[6], 2, Len(vals[6]))
          trailing == SubSeq(vals[7], 2, Len(vals[7])) IN
-     /\ Denote(d1) \o trailing = o.v
-     /\ (twoFormats => Denote(d2) \o trailing = o.v)
+     /\ SumSeq(groups1) = Len(d1) - 1
+     /\ WithTrailing(DataOf(d1, groups1, lsb0), trailing, lsb0) = o.v
+     /\ (twoFormats => WithTrailing(DataOf(d2, SizesFor(d2, gbits), lsb0), trailing, lsb0) = o.v)
      \* every group is whole; without an explicit group length the very last one may be shorter
      /\ (gbits > 0 => \A i \in 1..Len(groups1) :
             \/ groups1[i] * DigitWidth(d1[1]) = gbits
@@ -71,7 +90,7 @@ PredOK(pred, objs, call, vals, post) ==
   LET o == objs[call.t] IN
   CASE pred = "str" -> StrOK(o, vals)
     [] pred = "repr" -> ReprOK(o, vals)
-    [] pred = "pp" -> PPOK(o, vals, call.ia[1], call.ia[2], call.ia[3] = 1, call.ia[4] = 1, call.ia[6] = 1)
+    [] pred = "pp" -> PPOK(o, vals, call.ia[1], call.ia[2], call.ia[3] = 1, call.ia[4] = 1, call.ia[6] = 1, call.opts.lsb0)
     [] pred = "arepr" -> Len(vals) = 2 /\ vals[1] = <<9, 1>> /\ vals[2] = <<15, 0, -1, Len(o.v)>> \o o.v
     [] OTHER -> TRUE
 =============================================================================
